@@ -277,3 +277,138 @@ theorem C03_optional_constraints (cfg : Config) (st : State) (ρ : Env) (hρ : S
   exact (C10_optional c hopt hd ρ).1 (C10_constraint_part cfg st ρ hρ c hc hop) happ
 
 end PS
+namespace PS
+open List
+
+/-! ### ScheduleNTasksInTimeIntervals: the lower side (kinds `min` and `exact`) -/
+
+/-- task `t` lies inside one of the listed intervals -/
+def InsideAny (ρ : Env) (t : Task) (ivs : List (Int × Int)) : Prop :=
+  ∃ iv ∈ ivs, iv.1 ≤ t.startV ρ ∧ t.endV ρ ≤ iv.2
+
+open Classical in
+/-- number of tasks of the list lying inside one of the intervals -/
+noncomputable def countInside (ρ : Env) (ts : List Task) (ivs : List (Int × Int)) : Nat :=
+  ts.countP (fun t => decide (InsideAny ρ t ivs))
+
+theorem count_append (ρ : Env) (a b : List Fml) : Fml.count ρ (a ++ b) = Fml.count ρ a + Fml.count ρ b := by
+  induction a with
+  | nil => simp [Fml.count]
+  | cons x a ih => simp only [List.cons_append, Fml.count, ih]; omega
+
+theorem count_pos_exists (ρ : Env) (l : List Fml) (h : 0 < Fml.count ρ l) : ∃ a ∈ l, a.eval ρ := by
+  induction l with
+  | nil => simp [Fml.count] at h
+  | cons x l ih =>
+      simp only [Fml.count] at h
+      by_cases hx : x.eval ρ
+      · exact ⟨x, by simp, hx⟩
+      · rw [if_neg hx] at h
+        obtain ⟨a, ha, hae⟩ := ih (by omega)
+        exact ⟨a, by simp [ha], hae⟩
+
+/-- the Booleans of one task: at most one is true, and a true one puts the task inside its interval -/
+theorem perTask_count (ρ : Env) (c : Nat) (t : Task) (base : Nat) (ivs : List (Int × Int))
+    (h : Sat ρ ((((List.range ivs.length).map (fun j => Fml.bvar (.inInterval c t.name (base + j)))).zip ivs).map
+                  (fun (b, iv) => inIntervalFml b t iv) ++
+                [Fml.atMost ((List.range ivs.length).map (fun j => Fml.bvar (.inInterval c t.name (base + j)))) 1])) :
+    open Classical in
+    Fml.count ρ ((List.range ivs.length).map (fun j => Fml.bvar (.inInterval c t.name (base + j)))) ≤
+      (if InsideAny ρ t ivs then 1 else 0) := by
+  rw [Sat.append] at h
+  obtain ⟨himp, hmost⟩ := h
+  have hle := hmost _ (List.mem_singleton.2 rfl)
+  simp only [Fml.eval] at hle
+  by_cases hin : InsideAny ρ t ivs
+  · rw [if_pos hin]; exact hle
+  · rw [if_neg hin]
+    by_contra hpos
+    obtain ⟨a, ha, hae⟩ := count_pos_exists ρ _ (Nat.lt_of_not_le hpos)
+    obtain ⟨j, hj, rfl⟩ := List.mem_map.1 ha
+    have hj' := List.mem_range.1 hj
+    apply hin
+    refine ⟨ivs[j], List.getElem_mem _, ?_⟩
+    have := himp (inIntervalFml (Fml.bvar (.inInterval c t.name (base + j))) t ivs[j]) (by
+      apply List.mem_map.2
+      refine ⟨(Fml.bvar (.inInterval c t.name (base + j)), ivs[j]), ?_, rfl⟩
+      rw [List.mem_iff_getElem]
+      refine ⟨j, by simp; exact hj', ?_⟩
+      simp)
+    simp only [inIntervalFml, Fml.eval, Fml.evalAll] at this
+    have := this hae
+    simp only [Term.eval, numT, Task.sVar, Task.eVar] at this
+    exact ⟨this.1, this.2.1⟩
+
+end PS
+
+namespace PS
+open List
+
+/-- the pair (formulas, Booleans) that `ScheduleNTasksInTimeIntervals` creates for the i-th task -/
+def schedNPer (c : Nat) (ts : List Task) (ivs : List (Int × Int)) (i : Nat) : List Fml × List Fml :=
+  let t := ts.getD i default
+  let bs := (List.range ivs.length).map (fun j => Fml.bvar (.inInterval c t.name (i * ivs.length + j)))
+  (((bs.zip ivs).map (fun (b, iv) => inIntervalFml b t iv)) ++ [Fml.atMost bs 1], bs)
+
+theorem schedN_raw (c : Nat) (ts : List Task) (n : Nat) (ivs : List (Int × Int)) (kind : CountKind) :
+    (CBody.scheduleN ts n ivs kind).raw c =
+      ((List.range ts.length).map (schedNPer c ts ivs)).flatMap (·.1) ++
+      [pbFun kind (((List.range ts.length).map (schedNPer c ts ivs)).flatMap (·.2)) n] := rfl
+
+open Classical in
+theorem schedN_count (ρ : Env) (c : Nat) (ts : List Task) (ivs : List (Int × Int)) : ∀ (is : List Nat),
+    Sat ρ ((is.map (schedNPer c ts ivs)).flatMap (·.1)) →
+    Fml.count ρ ((is.map (schedNPer c ts ivs)).flatMap (·.2)) ≤
+      (is.map (fun i => ts.getD i default)).countP (fun t => decide (InsideAny ρ t ivs))
+  | [], _ => by simp [Fml.count]
+  | i :: is, h => by
+      simp only [List.map_cons, List.flatMap_cons, Sat.append] at h
+      have ih := schedN_count ρ c ts ivs is h.2
+      have h1 := perTask_count ρ c (ts.getD i default) (i * ivs.length) ivs (by
+        have := h.1
+        simpa [schedNPer, Sat.append] using this)
+      simp only [List.map_cons, List.flatMap_cons, count_append, List.countP_cons]
+      have : (schedNPer c ts ivs i).2 =
+          (List.range ivs.length).map (fun j => Fml.bvar (.inInterval c (ts.getD i default).name (i * ivs.length + j))) := rfl
+      rw [this]
+      by_cases hin : InsideAny ρ (ts.getD i default) ivs
+      · rw [if_pos hin] at h1
+        have : decide (InsideAny ρ (ts.getD i default) ivs) = true := decide_eq_true hin
+        rw [if_pos this]; omega
+      · rw [if_neg hin] at h1
+        have : ¬ decide (InsideAny ρ (ts.getD i default) ivs) = true := fun h' => hin (of_decide_eq_true h')
+        rw [if_neg this]; omega
+
+theorem range_getD (ts : List Task) : (List.range ts.length).map (fun i => ts.getD i default) = ts := by
+  apply List.ext_getElem
+  · simp
+  · intro i h1 h2
+    simp [List.getD, h2]
+
+/-- **C03 (ScheduleNTasksInTimeIntervals, lower side).**  With kind `min` or `exact`, at least `n`
+    tasks of the list lie inside one of the listed intervals, in every interpretation satisfying the
+    constraint's assertions — for any number of tasks and intervals, overlapping or not.  (The upper
+    side of `max` / `exact` is not enforced by the library: finding F11.) -/
+theorem C03_scheduleN_lower (c : Nat) (ts : List Task) (n : Nat) (ivs : List (Int × Int)) (kind : CountKind)
+    (ρ : Env) (hk : kind ≠ .max) (h : Sat ρ ((CBody.scheduleN ts n ivs kind).raw c)) :
+    n ≤ countInside ρ ts ivs := by
+  rw [schedN_raw, Sat.append] at h
+  have hcount := schedN_count ρ c ts ivs (List.range ts.length) h.1
+  rw [range_getD] at hcount
+  have hpb := h.2 _ (List.mem_singleton.2 rfl)
+  unfold countInside
+  cases kind with
+  | max => exact absurd rfl hk
+  | min => simp only [pbFun, Fml.eval] at hpb; omega
+  | exact => simp only [pbFun, Fml.eval] at hpb; omega
+
+/-- lifted to `initialize`: every enforced ScheduleNTasksInTimeIntervals constraint of kind `min` / `exact` -/
+theorem C03_scheduleN_enforced (cfg : Config) (st : State) (ρ : Env) (hρ : Sat ρ (initFmls cfg st))
+    (cst : Constr) (he : Enforced st cst) (ts : List Task) (n : Nat) (ivs : List (Int × Int)) (kind : CountKind)
+    (hb : cst.body = .scheduleN ts n ivs kind) (hk : kind ≠ .max) : n ≤ countInside ρ ts ivs := by
+  obtain ⟨hc, hopt, hop⟩ := he
+  apply C03_scheduleN_lower cst.id ts n ivs kind ρ hk
+  rw [← hb, ← C10_mandatory cst hopt]
+  exact C10_constraint_part cfg st ρ hρ cst hc hop
+
+end PS
